@@ -27,6 +27,9 @@ pub fn header_fields(frame: &[u8]) -> Vec<Field> {
     let f = |off, width, name| Field { off, width, big_endian: true, name };
     match e.et {
         ET_ARP => {
+            v.push(f(14, 2, "arp.htype"));
+            v.push(f(14 + 2, 2, "arp.ptype"));
+            v.push(f(14 + 6, 2, "arp.op"));
             v.push(f(14 + 4, 1, "arp.hlen"));
             v.push(f(14 + 5, 1, "arp.plen"));
         }
